@@ -362,6 +362,15 @@ def handmade():
         # many lookaheads: cluster order is the hash map's
         {'prefix': 'Test0', 'modes': [m('L', [{'p': chr(97 + i), 't': i * 7 + 1, 'la': {'pos': i % 2 == 0, 'p': chr(98 + i) + '+'}}
                                               for i in range(8)])]},
+        # token types whose decimals are prefixes of one another on lookaheads with many states: node names are built
+        # from the token type and the state number, and two (token type, state) pairs must never share a name
+        {'prefix': 'P', 'modes': [m('D', [{'p': 'x', 't': 1, 'la': {'pos': True, 'p': 'abcdefghijklm'}}, {'p': 'y', 't': 5},
+                                          {'p': 'z', 't': 11, 'la': {'pos': False, 'p': 'pq'}}])]},
+        {'prefix': 'P', 'modes': [m('D', [{'p': 'x', 't': 10, 'la': {'pos': False, 'p': 'pq'}},
+                                          {'p': 'z', 't': 1, 'la': {'pos': True, 'p': '[a-c]{14}x|abcabcabcabcabcy'}}])]},
+        {'prefix': 'P', 'modes': [m('D', [{'p': 'x', 't': 2, 'la': {'pos': True, 'p': 'a{30}b'}}, {'p': 'y', 't': 25, 'la': {'pos': True, 'p': 'cd'}},
+                                          {'p': 'z', 't': 21, 'la': {'pos': False, 'p': 'e+f'}}, {'p': 'w', 't': 0, 'la': {'pos': True, 'p': 'a{12}'}},
+                                          {'p': 'v', 't': 110, 'la': {'pos': True, 'p': 'g'}}])]},
         # same token type and same lookahead text in two modes
         {'prefix': 'x-y', 'modes': [m('A', [{'p': 'a', 't': 1, 'la': {'pos': True, 'p': 'b'}}]),
                                     m('B', [{'p': 'a', 't': 1, 'la': {'pos': False, 'p': 'b'}}])]},
@@ -398,7 +407,7 @@ class C18:
     ]
     TRUSTED_EXTRA = ['std::fs of the harness (scratch directory, listing and reading the written files)',
                      'Python: file text -> list of lines of scalar values, decoding of the flat graph encoding, set/multiset comparison']
-    RULE = ('configurations = repository corpora (tests/data, README; veryl in the thorough tier), 5 hand-made ones, and random '
+    RULE = ('configurations = repository corpora (tests/data, README; veryl in the thorough tier), hand-made ones (every label shape, nullable patterns, many lookaheads, token types whose decimals are prefixes of one another on large lookaheads), and random '
             'scanners of 1-3 modes named by distinct identifiers with 1-5 patterns each (40% built from characters and classes '
             'whose printed form needs escaping in a label: double quote, backslash, raw control characters, non-ASCII, '
             'parentheses, #, text like (C#5) inside a class; 30% dense 3-letter grammar; 30% full grammar), lookaheads on 35% '
@@ -566,6 +575,18 @@ class C18:
             if 'error' in generic:
                 v['violations'].append('file %s is not a well-formed Graphviz file (generic DOT grammar: %s); the extractor rejects it too: %s'
                                        % (fn, generic['error'], why))
+            elif (len(set(generic['nodes'])) != sum(len(g[0]) for g in [main] + [c[2] for c in cl])
+                  or len(generic['nodes']) != len(set(generic['nodes']))
+                  or generic['edges'] != sum(len(g[1]) for g in [main] + [c[2] for c in cl])
+                  or generic['subgraphs'] != len(cl)):
+                # whatever the layout: a Graphviz node is identified by its ID in the whole file, so the picture has one
+                # node per state only if the IDs are pairwise distinct and as many as there are states; likewise edges/clusters
+                dup = sorted(set(x for x in generic['nodes'] if generic['nodes'].count(x) > 1))
+                v['violations'].append('file %s: read with the generic DOT grammar it declares %d node statements with %d distinct node IDs%s, %d edges '
+                                       'and %d clusters, but the compiled automata of mode %s have %d states, %d transitions and %d lookaheads'
+                                       % (fn, len(generic['nodes']), len(set(generic['nodes'])), (' (declared more than once: %s)' % dup[:5]) if dup else '',
+                                          generic['edges'], generic['subgraphs'], m['name'],
+                                          sum(len(g[0]) for g in [main] + [c[2] for c in cl]), sum(len(g[1]) for g in [main] + [c[2] for c in cl]), len(cl)))
             else:
                 # well-formed Graphviz, but not in the text layout Dot.v models: the content cannot be compared
                 v['broken'].append('file %s is well-formed Graphviz by the generic DOT grammar, but the extractor of the layout model (Dot.v) '
